@@ -54,8 +54,12 @@ structure Req where
   ver : Ver
   /-- rustls accepts the bracket-stripped host as a server name -/
   nameValid : Bool
-  /-- the caller set a `content-length` header that disagrees with the body -/
+  /-- the caller set a `content-length` header that disagrees with the body, or `te: trailers`
+      followed by another `te` value (hyper only drops a `te` header whose first value is not
+      `trailers`): the h2 layer refuses both on HTTP/2 -/
   badLength : Bool := false
+  /-- client and server both offer `h2` via ALPN: a TLS connection speaks HTTP/2 whatever version the request names -/
+  alpnH2 : Bool := false
 
 /-- `impl From<http::Version> for HttpProtocol` -/
 def protocolFrom : Ver → Out Proto
@@ -136,6 +140,10 @@ def checks (conn : Proto) (r : Req) : Out Unit :=
       if r.host.isNone then .err .protocol else authorityForm r.host
     else .val ()
 
+/-- `HttpConnectionBuilder::handshake`: HTTP/2 if asked for, or if TLS negotiated `h2` -/
+def connectionProtocol (requested : Proto) (r : Req) : Proto :=
+  if requested == .h2 || (usesTls r && r.alpnH2) then .h2 else .h1
+
 def usesPoolKey : Svc → Bool
   | .connector => false
   | _ => true
@@ -145,7 +153,7 @@ def run (r : Req) : Out Unit :=
   (if usesPoolKey r.svc then poolKey r else .val ()).bind fun _ =>
   (requestProtocol r.ver).bind fun proto =>
   (connectStage r).bind fun _ =>
-  (checks proto r).bind fun _ =>
+  (checks (connectionProtocol proto r) r).bind fun _ =>
   sendStage r
 
 end Hd.NoPanic
